@@ -27,13 +27,13 @@ def run(ctx: Ctx) -> None:
     from ..kinds import KINDS
     from ..layoutreplay import report as report_layout, run_slices
     quick = ctx.tier == "quick"
-    total = run_slices(ctx, ["A", "C", "E"] if quick else ["A", "B", "C", "D", "E", "F"], {"F": 2}, twins=False)
+    total = run_slices(ctx, ["A", "C", "E", "G"] if quick else ["A", "B", "C", "D", "E", "F", "G"], {"F": 2}, twins=False)
     report_layout(ctx, total, "C01")
     from .. import layoutreplay
     layoutreplay.TYPE_PRED_ALLOWED["on"] = False      # Required[int] is not selected by the predicate `int`: known finding of C17
     for kind_tla in ("dataclass", "typeddict", "sqlalchemy"):
         kinds = [k.name for k in KINDS if k.tla == ("total" if kind_tla == "dataclass" else kind_tla) and k.name != "dataclass"]
-        total = run_slices(ctx, ["E"] if quick else ["A", "B", "C", "D", "E", "F"], {"F": 1}, twins=False, kind_tla=kind_tla, kinds=kinds,
+        total = run_slices(ctx, (["E"] if quick else ["A", "B", "C", "D", "E", "F"]) + (["G"] if kind_tla == "dataclass" else []), {"F": 1}, twins=False, kind_tla=kind_tla, kinds=kinds,
                            every=2 if quick else 1)
         report_layout(ctx, total, "C01")
     ctx.exhaustive = True
